@@ -1,6 +1,6 @@
 """Checks decided by the scheduled correspondence: C03, C04, C05, C06, C08 (drained), C09, C10."""
 import hashlib, json, os, shutil, time
-from . import common, gensched, schedcheck, shadow, seqcheck
+from . import common, gensched, schedcheck, shadow, seqcheck, crosscheck
 
 KINDS = {
     "C03": "IIUDDDS", "C04": "IIDDDCCCU", "C05": "UUUUIDS", "C06": "IDDDDCCCUS", "C08": "IIUDDDSC",
@@ -119,6 +119,14 @@ def run_sched_property(pid, tier, seed, level="other", level_note=None, extra_ca
                 what["proof_obligations_broken"] = problems
             common.violation(pid, dict(kind="sched", **what), found_input=False)
             viol_count = max(1, len(mismatches))
+        xcc = None
+        if pid == "C03" and not viol_count:
+            xn, xsteps, xmism, xerr = crosscheck.run_conc(byid, go, tmp, limit_steps=3000 if tier == "quick" else 20000)
+            xcc = dict(runs=xn, steps=xsteps, mismatches=xmism, error=xerr)
+            if xerr or xmism:
+                common.violation(pid, dict(kind="sched", correspondence="in-Coq (vm_compute) evaluation of the concurrent model vs the implementation's final structure and results",
+                                           mismatch=xmism, error=xerr), found_input=False)
+                viol_count = 1
         sample_key = next(iter(go))
         sample_case = byid[sample_key[0]]
         coverage = dict(
@@ -131,7 +139,7 @@ def run_sched_property(pid, tier, seed, level="other", level_note=None, extra_ca
             traces_validated_against_impl=len(go) - len(mismatches),
             correspondence_mismatches=len(mismatches), monitor_violations=len(mon_viol),
             exhaustively_enumerated_programs=len(corpus), enumerations_truncated=sum(1 for r in go.values() if r.get("enum_truncated")),
-            model_invariant_CI=ci,
+            model_invariant_CI=ci, in_coq_crosscheck_concurrent=xcc,
             deadlocks_seen=sum(1 for r in go.values() if r["deadlock"]), truncated_runs=sum(1 for r in go.values() if r["truncated"]),
             samples=[dict(type=sample_case["type"], order=sample_case["order"], init=sample_case["init"][:10], progs=sample_case["progs"],
                           schedule=schedcheck.executed_schedule(go[sample_key])[:60])],
